@@ -32,6 +32,7 @@ ApiClass(op, api) ==
     [] op \in {"cwd"} /\ api = "dm.decoder" -> "matrix"
     [] op = "mat" /\ api \in {"qr.decoder", "dm.decoder", "az.decoder"} -> "matrix"
     [] op = "row" /\ api \in RowApis -> "row"
+    [] op = "runs" /\ api \in RowApis -> "row"
     [] op = "qrp" /\ api = "qr.parser" -> "parser"
     [] op = "dmp" /\ api = "dm.parser" -> "parser"
     [] op = "azp" /\ api = "az.hld" -> "parser"
